@@ -71,6 +71,49 @@ def fresh_process(cases):
     return outs
 
 
+def fresh_process_batch(cases, hashseed):
+    """observations of all cases in ONE fresh interpreter started with the given hash seed"""
+    import json
+    code = ('import sys, json\nsys.path[:0]=[%r, %r]\nimport prop_c11\ncases=json.load(sys.stdin)\n'
+            'print(json.dumps([prop_c11.observe(t, a) for t, a in cases]))' % (os.environ.get('VERIF_REPO', '/repo'), os.path.join(VERIF, 'tools')))
+    p = subprocess.run(['/venv/bin/python', '-c', code], input=json.dumps(cases), capture_output=True, text=True,
+                       env=dict(os.environ, PYTHONHASHSEED=hashseed, PYTHONDONTWRITEBYTECODE='1'))
+    if p.returncode != 0:
+        raise RuntimeError('fresh interpreter failed: ' + p.stderr[-500:])
+    return json.loads(p.stdout)
+
+
+def nested_same(text, allow, inner):
+    from pydbml.parser.parser import PyDBMLParser
+    from pydbml import PyDBML
+    import copyprobe
+
+    class Nesting(PyDBMLParser):
+        todo = []
+
+        def parse_blueprint(self, s, loc, tok):
+            if self.todo:
+                t = self.todo.pop()
+                try:
+                    PyDBML(t)
+                except Exception:   # noqa
+                    pass
+            return super().parse_blueprint(s, loc, tok)
+
+    def fp(mk):
+        try:
+            db = mk()
+        except RecursionError:
+            return ('raise', 'RecursionError')
+        except Exception as e:   # noqa
+            return ('raise', type(e).__name__)
+        return ('ok', docgen.content(db), copyprobe.safe(lambda: db.sql), copyprobe.safe(lambda: db.dbml))
+    base = fp(lambda: PyDBMLParser(text, allow_properties=allow).parse())
+    p = Nesting(text, allow_properties=allow)
+    p.todo = [inner]
+    return fp(lambda: p.parse()) == base
+
+
 def run(v, tier, st, pr):
     r = rng('c11')
     n = 1 if tier == 'quick' else 20
@@ -110,6 +153,32 @@ def run(v, tier, st, pr):
         if f != alone[i]:
             fails.append({'cause': 'oracle', 'clause': 'first parse in a fresh interpreter differs from a later parse',
                           'input': {'kind': 'document', 'text_hex': hexs(docs[i][0]), 'text': docs[i][0]}})
+    # (i') the same across interpreters started with different hash seeds (set / dict iteration order may not show):
+    # generated documents plus documents that repeat labels, settings and keys
+    repeats = [('Enum e {\n  a\n  b\n  c\n  a\n  d\n  b\n  e\n}\nTable t {\n  x e\n}\n', False),
+               ('Enum "my schema"."e" {\n  "x y" [note: \'n\']\n  b\n  "x y"\n  c\n  b\n}\n', False),
+               ("Project p {\n  a: '1'\n  b: '2'\n  a: '3'\n  c: '4'\n  b: '5'\n}\n", False),
+               ("Table t [k1: 'v', k2: 'w', k1: 'x', k3: 'y'] {\n  id int [k: 'a', j: 'b', k: 'c']\n  k1: 'z'\n  k4: 'q'\n}\n", True),
+               ('Table t {\n  id int [pk, unique, pk, not null, unique]\n  indexes {\n    (id, id) [unique, pk, unique]\n  }\n}\n', False),
+               ('Table a {\n  id int\n}\nTable b {\n  id int\n}\nTableGroup g {\n  a\n  b\n}\nTableGroup h {\n  b\n  a\n}\n', False)]
+    hs_cases = [docs[i] for i in r.sample(range(len(docs)), 12 if tier == 'quick' else 60)] + repeats
+    hs_base = [observe(t, a) for t, a in hs_cases]
+    for seed_ in ('1', '2', '3') if tier == 'quick' else ('1', '2', '3', '4', '5', '6', '7'):
+        outs_ = fresh_process_batch(hs_cases, seed_)
+        for (t, a), x, y in zip(hs_cases, hs_base, outs_):
+            if x != y:
+                fails.append({'cause': 'oracle', 'clause': 'the result of parsing differs between interpreters started with different PYTHONHASHSEED (%s)' % seed_,
+                              'input': {'kind': 'document', 'text_hex': hexs(t), 'text': t}})
+                break
+    # (i'') an independent parse started in the middle of another one, on the same thread (from a parse action of a subclass of the
+    # public PyDBMLParser): the outer parse gives what it gives alone
+    for i in r.sample(range(len(docs)), 30 if tier == 'quick' else 300):
+        t, a = docs[i]
+        inner = docs[(i * 7 + 3) % len(docs)][0]
+        if not nested_same(t, a, inner):
+            fails.append({'cause': 'oracle', 'clause': 'a parse during which another document is parsed on the same thread gives a different result than alone',
+                          'input': {'kind': 'document', 'text_hex': hexs(t), 'text': t, 'inner_text': inner}})
+            break
     # (ii) shared grammar state: the reflected grammar after the history is the one the theorems were checked against
     fp1 = fingerprint()
     gen = open(os.path.join(COQ, 'gen', 'GenGrammar.v')).read()
@@ -176,6 +245,8 @@ def run(v, tier, st, pr):
     v.coverage['concurrent_parses'] = len(work)
     v.coverage['weakrefs_checked'] = len(refs)
     v.coverage['fresh_interpreters'] = len(sample)
+    v.coverage['hash_seeds_compared'] = 3 if tier == 'quick' else 7
+    v.coverage['nested_parses'] = 30 if tier == 'quick' else 300
     total = verdicts.conclude(v, pr, st, {'history': stream_script.strip(res)}, fails)
     v.coverage['evaluations'] = total + len(work) + 2 * len(docs)
     v.coverage['distinct_nontrivial'] = res['distinct_nontrivial']
